@@ -207,3 +207,10 @@ def who_writes(ctx, attr, allowed, cls_family=None):
                 if owner is fi:
                     writers.setdefault(fi.short, n)
     return writers
+
+
+def dominates(e1, e2):
+    """event e1 is passed on every normal path that reaches e2: it comes first and every branch condition
+    on e1's path is also on e2's path (conditions introduced by earlier raising/returning branches included)."""
+    k2 = {c.key for c in e2.pc}
+    return e1.seq < e2.seq and all(c.key in k2 for c in e1.pc)
